@@ -194,3 +194,15 @@ func (e *Engine) HarnessFunc(name string) *ssa.Function {
 func isVnd(f *ssa.Function) bool {
 	return strings.HasPrefix(f.Name(), "vnd") && f.Pkg != nil && strings.HasPrefix(f.Pkg.Pkg.Path(), RepoModule)
 }
+
+// nopFunc returns a harness-provided function `func vhNop()` (used as a cancel function model).
+func (e *Engine) nopFunc() *ssa.Function {
+	for _, path := range harnessPkgDirs {
+		if p := e.Pkgs[path]; p != nil {
+			if f := p.Func("vhNop"); f != nil {
+				return f
+			}
+		}
+	}
+	return nil
+}
